@@ -42,7 +42,7 @@ def scale_table(rng, ntok=6, lo=1.5, hi=60.0, near=False):
     return {k + 1: float(v) for k, v in enumerate(vals)}
 
 
-def cards_for(inst, tab, order=(1, 0), method="iterate-exact", sv=None, xif=1.0, xgrid=None, **cfg):
+def cards_for(inst, tab, order=(1, 0), method="iterate-exact", sv=None, xif=1.0, xgrid=None, ratios=None, **cfg):
     """inst = dict(ms=[3 tokens], o=[tok,nf], targets=[[tok,nf],...])."""
     from ekobox.cards import example
     from eko.io import runcards
@@ -51,8 +51,12 @@ def cards_for(inst, tab, order=(1, 0), method="iterate-exact", sv=None, xif=1.0,
     op = copy.deepcopy(example.raw_operator())
     th["order"] = list(order)
     th["matching_order"] = [max(order[0] - 1, 0), 0]
-    th["heavy"]["masses"] = [[tab[t], float("nan")] for t in inst["ms"]]
-    th["heavy"]["matching_ratios"] = [1.0, 1.0, 1.0]
+    # matching ratios (powers of two: exact) with the masses divided by them: the matching scales stay at the tokens
+    ratios = list(ratios or [1.0, 1.0, 1.0])
+    # (pow() is not exactly a product: keep a ratio only where the library's k^2 * m^2 reproduces the token bit by bit)
+    ratios = [k if float(np.power(k, 2.0) * (tab[t] / k) ** 2) == tab[t] ** 2 else 1.0 for t, k in zip(inst["ms"], ratios)]
+    th["heavy"]["masses"] = [[tab[t] / k, float("nan")] for t, k in zip(inst["ms"], ratios)]
+    th["heavy"]["matching_ratios"] = ratios
     th["xif"] = xif
     th["couplings"]["ref"] = (91.2, 5)
     op["init"] = (tab[inst["o"][0]], inst["o"][1])
@@ -178,7 +182,7 @@ def list_headers(d, f2t):
     return out
 
 
-def solve_synthetic(inst, tab, sv=None, xif=1.0):
+def solve_synthetic(inst, tab, sv=None, xif=1.0, order=(1, 0), ratios=None):
     """Run managed.solve with synthetic parts; returns the trace record for RunnerTrace."""
     import eko
     from eko.io.items import Operator
@@ -186,7 +190,7 @@ def solve_synthetic(inst, tab, sv=None, xif=1.0):
     from eko.runner import operators, parts
 
     f2t = tokmap(tab)
-    th, op = cards_for(inst, tab, sv=sv, xif=xif)
+    th, op = cards_for(inst, tab, sv=sv, xif=xif, order=order, ratios=ratios)
     ids = {}
     calls = []
     retrieves = []
